@@ -114,6 +114,12 @@ CHECKS = {
     design_ref="DESIGN.md §4 C19",
     note="Trusted: proptest and the harness loader. Worlds carry no `type` attributes or source-map URLs (the attribute class of a target must be stable over time); context-sensitive acceptance divergences are known findings.",
   ),
+  "C16": dict(
+    technique="property-based testing (proptest) with a multi-module TypeScript program generator: validity predicate over every symbol table, reference fixpoint of the resolved export set from an independent AST walk, termination and answer shape of go-to-definition under a watchdog; plus the symbols / graph spec corpus",
+    text="Generated programs of 1-7 modules (ts/tsx/d.ts/mts, JSON) with every declaration kind, declaration merging, overloads, nested / dotted / ambient namespaces, class static / instance / private / computed members, interface members, expando properties, import / export aliases, import-equals, every default-export form, star and namespace re-exports with self loops and cycles; shared name pools force own / star / alias name collisions. Oracles: every export / child / member id exists, one root, parents exist, definition symbols are listed exactly once by their parent as child xor member, nothing is reachable over two paths, every declaration carries the symbol's name and a range inside the module text; own exports equal the export statements read by an independent walk; ModuleInfoRef::exports equals the least fixpoint own + (star \\ default) and every star-resolved name lands, hop by hop over existing star edges, on a module that owns it without passing over an own export; find_definition_paths / go_to_definitions_or_unresolveds from every symbol and resolve_symbol_dep of every declaration dependency terminate and end in definitions (or `* as` markers) inside the named module or in explicit unresolved markers. Exploration only; a hang or panic confirmed in a fresh process is a violation.",
+    design_ref="DESIGN.md §4 C16",
+    note="Trusted: swc / deno_ast as parser for the independent export walk; ModuleGraph::resolve_dependency for star edges (covered by C08/C14); the runner's watchdog for 'finite time'.",
+  ),
   "C17": dict(
     technique="property-based differential testing (proptest): build(All)+prune_types vs build(CodeOnly) over generated module worlds",
     text="Generated-input search with a differential oracle: for each generated world the pruned full graph is compared with an independent code-only build on entries, redirects, code edges, validation verdict and error listing. Exploration only: absence of counterexamples inside the generated bounds, not a proof.",
